@@ -176,8 +176,6 @@ pub mod boundary {
                 return true;
             }
 
-            #[cfg(roto_verif)]
-            crate::verif::sched::point("acquire", self.inner.vid(), 0);
             let this = self.inner.0.lock().unwrap();
 
             // SAFETY: The rawlist represents a slice of T::Transformed so
@@ -190,8 +188,6 @@ pub mod boundary {
                 )
             };
 
-            #[cfg(roto_verif)]
-            crate::verif::sched::point("acquire", other.inner.vid(), 0);
             let other = other.inner.0.lock().unwrap();
 
             // SAFETY: The rawlist represents a slice of T::Transformed so
@@ -473,11 +469,7 @@ impl PartialEq for ErasedList {
             return true;
         }
 
-        #[cfg(roto_verif)]
-        crate::verif::sched::point("acquire", self.vid(), 0);
         let this = self.0.lock().unwrap();
-        #[cfg(roto_verif)]
-        crate::verif::sched::point("acquire", other.vid(), 0);
         let other = other.0.lock().unwrap();
 
         if this.len != other.len {
@@ -539,8 +531,6 @@ impl ErasedList {
     /// Both `self` and `other` must have the same element type.
     ///
     pub unsafe fn concat(&self, other: &Self) -> Self {
-        #[cfg(roto_verif)]
-        crate::verif::sched::point("acquire", self.vid(), 0);
         let a = self.0.lock().unwrap();
 
         let new = Self::new(a.vtable.clone());
@@ -553,8 +543,6 @@ impl ErasedList {
         // We need to ensure we don't lock the mutex twice
         drop(a);
 
-        #[cfg(roto_verif)]
-        crate::verif::sched::point("acquire", other.vid(), 0);
         let b = other.0.lock().unwrap();
 
         // SAFETY: raw and b have the same element type
